@@ -16,7 +16,7 @@ import (
 // rules must report a violation on a scratch copy of /repo with the patch applied.
 type Variant struct {
 	ID      string `json:"id"`
-	Source  string `json:"source"` // "revert of fix <sha>", "sub-agent", "hand-written"
+	Source  string `json:"source"`  // "revert of fix <sha>", "sub-agent", "hand-written"
 	Reverse bool   `json:"reverse"` // apply patch.diff with -R (reverts of fix commits)
 	What    string `json:"what"`
 	Expect  []struct {
@@ -54,12 +54,12 @@ func loadVariants(verif string) []Variant {
 }
 
 type variantResult struct {
-	ID      string   `json:"id"`
-	Source  string   `json:"source"`
-	Status  string   `json:"status"` // fired | missed | skipped
-	Expect  []string `json:"expected_rules"`
-	Fired   []string `json:"fired_rules"`
-	Detail  string   `json:"detail"`
+	ID     string   `json:"id"`
+	Source string   `json:"source"`
+	Status string   `json:"status"` // fired | missed | skipped
+	Expect []string `json:"expected_rules"`
+	Fired  []string `json:"fired_rules"`
+	Detail string   `json:"detail"`
 }
 
 func copyTree(src, dst string) error {
